@@ -90,10 +90,10 @@ def make_world(ctx, nconn, display=None, stop=None, show_stub=True):
     return w
 
 
-def add_message(w, ci, t=None, name='sync', sent=True):
+def add_message(w, ci, t=None, name='sync', sent=True, args=()):
     from core import wl
     n = len(w.msgs)
-    m = wl.Message(float(n) if t is None else t, wl.UnresolvedObject(1, 'wl_display'), sent, name, ())
+    m = wl.Message(float(n) if t is None else t, wl.UnresolvedObject(1, 'wl_display'), sent, name, args)
     m.tag = n
     w.msgs.append((m, ci))
     w.manager.message('conn%d' % ci, m)
